@@ -349,6 +349,9 @@ func iRegexpSplit(m *machine, fr *frame, args []value) value {
 	wordCh := reByteSet(func(b int) bool { return !t.sepSet[b] })
 	word0 := reStar(wordCh)
 	word1 := rePlus(wordCh)
+	if r, ok := m.splitSyntactic(t, s, word0); ok {
+		return r
+	}
 	// s = w0 sep1 w1 ... sepk wk ; fork on k
 	if m.branch(mkStrEq(s, mkStr(""))) {
 		return []value{""}
@@ -437,6 +440,22 @@ func (m *machine) splitAtFirstOf1(r *Term, set []byte) (*Term, *Term) {
 			continue
 		}
 		rest := mkConcat(parts[i:]...)
+		if len(set) == 1 {
+			// case split instead of a disjunctive word equation: either the
+			// separator does not occur at all, or it occurs and the part before
+			// its first occurrence is free of it
+			sep := mkStr(string(set))
+			if !m.branch(mkContains(rest, sep)) {
+				return mkConcat(append(append([]*Term{}, acc...), rest)...), mkStr("")
+			}
+			g2 := m.freshStr("re_name")
+			tail := m.freshStr("re_tail")
+			g3 := mkConcat(sep, tail)
+			m.assume(mkStrEq(rest, mkConcat(g2, g3)))
+			m.noteFold(mkConcat(g2, g3), rest)
+			m.assume(mkNot(mkContains(g2, sep)))
+			return mkConcat(append(append([]*Term{}, acc...), g2)...), g3
+		}
 		g2 := m.freshStr("re_name")
 		g3 := m.freshStr("re_rest")
 		m.assume(mkStrEq(rest, mkConcat(g2, g3)))
@@ -453,4 +472,67 @@ func (m *machine) splitAtFirstOf1(r *Term, set []byte) (*Term, *Term) {
 		return mkConcat(append(append([]*Term{}, acc...), g2)...), g3
 	}
 	return mkConcat(acc...), mkStr("")
+}
+
+// splitSyntactic splits a concatenation of constants and symbolic pieces that
+// are free of separator characters without introducing fresh variables.
+func (m *machine) splitSyntactic(t *regexTemplate, s *Term, word0 *Term) (value, bool) {
+	type piece struct {
+		sep  bool
+		term *Term
+	}
+	var pieces []piece
+	for _, p := range concatParts(s) {
+		if p.Op == "cs" {
+			i := 0
+			for i < len(p.S) {
+				j := i
+				if t.sepSet[p.S[i]] {
+					for j < len(p.S) && t.sepSet[p.S[j]] {
+						j++
+					}
+					pieces = append(pieces, piece{sep: true})
+				} else {
+					for j < len(p.S) && !t.sepSet[p.S[j]] {
+						j++
+					}
+					pieces = append(pieces, piece{term: mkStr(p.S[i:j])})
+				}
+				i = j
+			}
+			continue
+		}
+		if !m.branch(mkInRe(p, word0)) {
+			return nil, false
+		}
+		if m.branch(mkStrEq(p, mkStr(""))) {
+			continue
+		}
+		pieces = append(pieces, piece{term: p})
+	}
+	if len(pieces) == 0 {
+		return []value{""}, true
+	}
+	var parts []value
+	var cur []*Term
+	prevSep := false
+	for i, pc := range pieces {
+		if pc.sep {
+			if !prevSep {
+				parts = append(parts, fromTerm(mkConcat(cur...)))
+				cur = nil
+			}
+			prevSep = true
+			if i == len(pieces)-1 {
+				parts = append(parts, "")
+			}
+			continue
+		}
+		prevSep = false
+		cur = append(cur, pc.term)
+	}
+	if !prevSep {
+		parts = append(parts, fromTerm(mkConcat(cur...)))
+	}
+	return parts, true
 }
